@@ -1513,6 +1513,27 @@ func (t *translator) exprK(e ast.Expr, ev *env, want string, k func(string) stri
 				})
 			})
 		}
+		// x.M(args) with x of a nil-able pointer type and M a method primitive: nil receiver panics
+		if sel, isSel := c.Fun.(*ast.SelectorExpr); isSel {
+			if rt := t.typeOfSafe(sel.X, ev); t.a.ptrs[rt] {
+				if p, isPrim := t.a.prims[rt+"."+sel.Sel.Name]; isPrim && p.recv && !p.world && len(p.results) == 1 {
+					for _, i := range p.args {
+						if i >= len(c.Args) || t.mayPanic(c.Args[i], ev) {
+							unsup(c, "argument of a method primitive that can panic")
+						}
+					}
+					return t.exprK(sel.X, ev, rt, func(r string) string {
+						d := t.fresh("r")
+						args := ""
+						for _, i := range p.args {
+							args += " " + t.pure(c.Args[i], ev, "")
+						}
+						return "(match " + r + " with None => (Panicked " + t.a.nilPan + ", w) | Some " + d + " => " +
+							k("("+p.coq+" "+d+args+")") + " end)"
+					})
+				}
+			}
+		}
 		t.primOf(c, ev) // names the function if it is not a primitive
 	}
 	unsup(e, "expression %T that can panic", e)
